@@ -111,6 +111,18 @@ let check_line (l : string) : string =
   if !verdict <> "OK" then !verdict
   else begin
     drain ();
+    (* the receive goroutine logs "delivered" after the hand-over on the caller's channel: the caller may have taken
+       its result, returned and ended the history before that label was written. A caller's TK in the log proves that
+       the delivery happened: a missing DL (fewer DL than matched frames in the log) is supplied once per waiting TK *)
+    let count n = List.length (List.filter (fun lb -> lb.name = n) labels) in
+    let missing = ref (count "RF" - count "DL") in
+    while !pending <> [] && !missing > 0 && (match !pending with lb :: _ -> lb.name = "TK" || lb.name = "FR" | [] -> false) do
+      decr missing;
+      (match List.find_opt (fun lb -> lb.name = "DL") labels with
+       | Some dl -> (match try_label !s dl with Some s' -> s := s' | None -> missing := 0)
+       | None -> (match labels with lb0 :: _ -> (match try_label !s { lb0 with name = "DL"; c = -1 } with Some s' -> s := s' | None -> missing := 0) | [] -> missing := 0));
+      drain ()
+    done;
     match !pending with
     | lb :: _ -> Printf.sprintf "DIFF label (%s c=%d a=%d b=%d) never became enabled (%d deferred labels left)" lb.name lb.c lb.a lb.b (List.length !pending)
     | [] ->
